@@ -119,7 +119,7 @@ static Boolean CPUAllowed(Word Flag) {
 }
 
 static void InsNOP(void) {
-    memmove(BAsmCode, BAsmCode + 1, CodeLen);
+    memmove(BAsmCode + 1, BAsmCode, CodeLen);
     CodeLen++;
     BAsmCode[0] = NOPCode;
 }
